@@ -124,8 +124,13 @@ def make_instances(tabs, rng, per_setting, target, only=None, long_every=0):
         if only is not None and (t["no"], t["setting"]) not in only:
             continue
         ms = conforming_metrics(t["crystal_system"], t["cell_choice"], rng, per_setting)
-        for m in ms:
+        for j, m in enumerate(ms):
             K, Kmin = shell_for(m, target, rng)
+            if j == 0:
+                # the first instance of every table is a FULL shell (from the origin outwards, twice as many lattice points): the
+                # low-order axial and zonal reflections are what most of the 26 reflection-condition slots speak about
+                K, _ = shell_for(m, 2 * target, rng)
+                Kmin = 0
             inst.append({"t": i + 1, "met": m, "K": K, "Kmin": Kmin})
         if long_every and t["crystal_system"] == "orthorhombic" and i % 5 == 0:
             # pseudo-tetragonal orthorhombic cell: exact ties between inequivalent reflections (h,k,l) / (k,h,l); the float cell is
@@ -188,7 +193,9 @@ def call_gen(a):
                 getattr(mod, func)(cell, smin, 0.5 * smax, output_stl=ostl, sgno=1)
         except Exception:
             pass
-        H = getattr(mod, func)(cell, smin, smax, output_stl=ostl, **kw)
+        # the flag as callers produce it: a Python bool, a numpy bool (the result of a comparison), 0 / 1
+        flag = [ostl, np.bool_(ostl), int(ostl), ostl][(npseed // 5) % 4]
+        H = getattr(mod, func)(cell, smin, smax, output_stl=flag, **kw)
         return np.asarray(H, dtype=float).tolist()
     except Exception as ex:
         return "EXC " + repr(ex)
